@@ -499,6 +499,12 @@ func c17RequestLayout(c *Ctx) {
 				}
 			}
 		}
+		// the field is handed on as read: nothing else is stored into it
+		for _, ref := range *dst.Referrers() {
+			if st, ok := ref.(*ssa.Store); ok && st.Addr == ssa.Value(dst) {
+				good = false
+			}
+		}
 		rd := strip(op.stream)
 		if reader == nil {
 			reader = rd
